@@ -19,7 +19,8 @@
 EXTENDS Dhcp4
 
 Ind == INSTANCE Dhcp4Ind WITH
-         GenNameOf <- [a \in StatAddrs |-> GenName(a)]
+         GenNameOf <- [a \in StatAddrs |-> GenName(a)],
+         AltNameOf <- [a \in StatAddrs |-> AltName(a)]
 
 ASSUME Ind!ConstOK
 
